@@ -1,6 +1,6 @@
 SPECIFICATION GenSpec
 CONSTANTS
-  MaxCommits = 10
+  MaxCommits = 11
   MaxOps = 5
   MaxActs = 3
   EmptyPolicies = {"keep", "all"}
